@@ -427,14 +427,13 @@ impl Parser {
             });
         }
         let val: f64 = text.parse().unwrap_or(f64::NAN);
-        if !val.is_finite() {
-            // `1e400`: a number of the grammar (no range rule applies to fractions / exponents); its
-            // value is beyond every double
-        } else if int_text && val.abs() > MAX_SAFE as f64 {
-            self.not_judged.push("integer literal in a comparison beyond the I-JSON range".into());
-        } else if !int_text && val.abs() > MAX_SAFE as f64 && val.fract() == 0.0 {
-            // fine: a double
+        if int_text && (!val.is_finite() || val.abs() > MAX_SAFE as f64) {
+            // an integer (no fraction, no exponent) outside the I-JSON range: RFC 9535 2.1 demands that range of
+            // the integers "relevant to the JSONPath processing"; the property lists out-of-range integers and is
+            // anchored in the library's range check of exactly these literals (parser.rs, `parse_number`)
+            return inv("IntRange", st, "integer literal outside the I-JSON range");
         }
+        // `1e400`, `9007199254740993.0`: numbers of the grammar (no range rule applies to fractions / exponents)
         Ok(NumLit { text, val, int_text })
     }
 
